@@ -17,7 +17,7 @@ def obs(v):
     if v is False: return [3]
     if v is Ellipsis: return [4]
     if v is StopIteration: return [5]
-    if isinstance(v, (int, long)): return [6, int(v)]
+    if isinstance(v, (int, long)): return [17 if (not PY3 and isinstance(v, long)) else 6, int(v)]
     if isinstance(v, float): return [7, fbits(v)]
     if isinstance(v, complex): return [8, fbits(v.real), fbits(v.imag)]
     if isinstance(v, unicode):
